@@ -6,7 +6,7 @@ CFG = dict(
     coq_targets=['props/C11.vo'],
 )
 MANIFEST = dict(
-    text='Theorems in coq/props/C11.v, proved by induction over the operation list of an executable Gallina model of keyset.Manager (model/Manager.v): for every history from an empty manager or any well-formed handle and every id tape, every handle returned has distinct ids, exactly one ENABLED primary, known statuses and requirement-respecting ids; failing operations leave the keyset unchanged; the primary cannot be disabled/deleted; non-enabled keys cannot become primary (also through the internal AddKeyWithOpts with any option list in any order); earlier handles are unaffected; over whole histories Manager.Handle() from an empty manager fails iff no step was a successful SetPrimary, AddKeyWithOpts(AsPrimary) or NewManagerFromHandle (and from any reachable state a primary exists after a run iff one existed before or a step created one); every operation leaves the id, id requirement, key object and order of all entries untouched (an add appends exactly one entry, Delete removes exactly the first entry with that id), Enable/Disable change only the status of the entry they name, SetPrimary changes only primary flags. The model is tied to the code by running the extracted model and the real Manager on the same random histories (tape-forced id collisions) and comparing every result and every handle.',
+    text='Theorems in coq/props/C11.v, proved by induction over the operation list of an executable Gallina model of keyset.Manager (model/Manager.v): for every history from an empty manager or any well-formed handle and every id tape, every handle returned has distinct ids, exactly one ENABLED primary, known statuses and requirement-respecting ids; failing operations leave the keyset unchanged; the primary cannot be disabled/deleted; non-enabled keys cannot become primary (also through the internal AddKeyWithOpts with any option list in any order); earlier handles are unaffected; over whole histories Manager.Handle() from an empty manager fails iff no step was a successful SetPrimary, AddKeyWithOpts(AsPrimary) or NewManagerFromHandle (and from any reachable state a primary exists after a run iff one existed before or a step created one); every operation leaves the id, id requirement, key object and order of all entries untouched (an add appends exactly one entry, Delete removes exactly the first entry with that id), Enable/Disable change only the status of the entry they name, SetPrimary changes only primary flags; ids are never re-assigned during a manager lifetime: an id names the same key object (and id requirement) in every later state in which it occurs, also after Delete. The model is tied to the code by running the extracted model and the real Manager on the same random histories (tape-forced id collisions) and comparing every result and every handle.',
     note='Trusted: Coq kernel, ExtrOcamlBasic extraction + OCaml glue, the Go harness; the model is hand-written (tie = correspondence on the explored histories, not translation). Aliasing between handles and the manager is exercised by re-inspecting every earlier handle at the end of each history, not proved. The internal AddKeyWithOpts is in the op list with arbitrary option lists (WithStatus, WithFixedID, AsPrimary in any order).',
     technique='Coq proof by induction over operation histories (invariant) + differential run of the extracted model against keyset.Manager',
 )
